@@ -89,9 +89,10 @@ def pre(schema, default):
 
 def after_length(meta, toks, i):
     """The Length-typed (not BodyLength) top-level token directly before insertion index i, if any:
-    MessageBase::decode reads the token after it with extract_element_fixed_width, which does not
-    NUL-terminate tag[]: a longer tag than the Length field's is followed by stale or
-    uninitialised stack bytes (model: OOB 4), i.e. the real behaviour is not deterministic."""
+    MessageBase::decode reads the token after it with extract_element_fixed_width.  (Before /repo
+    ce1e2cc that function did not NUL-terminate tag[] and a longer tag than the Length field's was
+    followed by stale or uninitialised stack bytes; such tokens were kept out.  Now half of the
+    tokens at these positions have an arbitrary tag, half a tag of the Length tag's width.)"""
     if i > 0 and toks[i - 1].depth == 0:
         f = toks[i - 1].fnum
         if f != 9 and meta.fields.get(f, (0,))[0] == G.FT_LENGTH:
@@ -102,7 +103,7 @@ def after_length(meta, toks, i):
 def token_at(rng, meta, known, toks, i, kind=None):
     """An unknown token suitable for insertion index i (None if there is none)."""
     lf = after_length(meta, toks, i)
-    if lf is None:
+    if lf is None or rng.random() < 0.5:
         return unknown_token(rng, meta, known, kind)[1]
     nd = len(str(lf))
     lo, hi = 10 ** (nd - 1), 10 ** nd - 1
